@@ -212,6 +212,8 @@ type Conn struct {
 	pacingDeadline monotime.Time
 
 	peerParams *wire.TransportParameters
+	// [UQUIC] the per-stream-kind receive windows a QUICSpec advertised (nil: the Config's single window)
+	uAdvertisedStreamData *uAdvertisedStreamData
 
 	timer *time.Timer
 	// keepAlivePingSent stores whether a keep alive PING is in flight.
@@ -2938,11 +2940,20 @@ func (c *Conn) newFlowController(id protocol.StreamID) flowcontrol.StreamFlowCon
 			initialSendWindow = c.peerParams.InitialMaxStreamDataBidiLocal
 		}
 	}
+	receiveWindow := protocol.ByteCount(c.config.InitialStreamReceiveWindow)
+	maxReceiveWindow := protocol.ByteCount(c.config.MaxStreamReceiveWindow)
+	// [UQUIC] A spec-driven client starts every stream with exactly the window its QUICSpec advertised for
+	// that kind of stream: a larger local window never asks for a MAX_STREAM_DATA frame in time (the peer
+	// has used up what it was told long before 25% of the local window is consumed) and the stream stalls.
+	if a := c.uAdvertisedStreamData; a != nil {
+		receiveWindow = a.forStream(id, c.perspective)
+		maxReceiveWindow = max(maxReceiveWindow, receiveWindow)
+	}
 	return flowcontrol.NewStreamFlowController(
 		id,
 		c.connFlowController,
-		protocol.ByteCount(c.config.InitialStreamReceiveWindow),
-		protocol.ByteCount(c.config.MaxStreamReceiveWindow),
+		receiveWindow,
+		maxReceiveWindow,
 		initialSendWindow,
 		c.rttStats,
 		c.logger,
